@@ -42,11 +42,17 @@ def obligations(tier, H):
             for ctor in ((True, False) if nd <= 2 or thorough else (True,)):
                 dicts = []
                 leaves = []
+                consts = (0, 123, True, None, 1.5, False, -7)
                 for k, name_idx in enumerate(combo):
                     leaf = "v{0}".format(k)
-                    vtype = ("str", "int", "str", "bool")[k % 4] if thorough or k % 2 == 0 else "str"
+                    if k % 2 == 1:
+                        # non-string values come from a table: str() of a symbolic number is
+                        # realised by CrossHair and would never exhaust
+                        n[0] += 0
+                        dicts.append([(name_idx, ("const", consts[(len(obs) + k) % len(consts)]))])
+                        continue
                     dicts.append([(name_idx, leaf)])
-                    leaves.append((leaf, vtype))
+                    leaves.append((leaf, "str"))
                 if thorough and nd <= 3:
                     # a second entry in the last dictionary
                     dicts[-1] = dicts[-1] + [(3 if combo[-1] != 3 else 0, "w")]
